@@ -331,7 +331,12 @@ class ResultTypesGenerator:
                     fragments = fragments.union(sub_fragments)
             elif isinstance(selection, InlineFragmentNode):
                 root_type_value = self._get_inline_fragment_root_type(
-                    selection.type_condition.name.value, root_type
+                    (
+                        selection.type_condition.name.value
+                        if selection.type_condition
+                        else root_type
+                    ),
+                    root_type,
                 )
                 if root_type_value:
                     sub_fields, sub_fragments = self._resolve_selection_set(
